@@ -25,6 +25,16 @@ func Root() string {
 	return "/verif"
 }
 
+// OutRoot is where evidence/ and replay/ are written: Root() normally, a scratch directory
+// when run.sh is pointed at a scratch copy of the repository (VERIF_REPO), so that trial runs
+// against mutants never overwrite the evidence of the real tree.
+func OutRoot() string {
+	if r := os.Getenv("VERIF_OUT_ROOT"); r != "" {
+		return r
+	}
+	return Root()
+}
+
 type Finding struct {
 	Property  string `json:"property"`
 	Signature string `json:"signature"` // exact, or regexp when prefixed with "re:"
@@ -249,7 +259,7 @@ func (r *Run) Violation(sig, caseKey, what string, witness any) {
 	if k := r.matchKnown(sig); k != nil {
 		v.Known = k
 	} else {
-		dir := filepath.Join(Root(), "replay", r.Prop)
+		dir := filepath.Join(OutRoot(), "replay", r.Prop)
 		_ = os.MkdirAll(dir, 0o755)
 		name := sanitize(sig) + "-" + sanitize(caseKey)
 		if len(name) > 150 {
@@ -371,7 +381,7 @@ func (r *Run) Finish() int {
 	}
 	if !r.Replaying() {
 		b, _ := json.MarshalIndent(ev, "", " ")
-		dir := filepath.Join(Root(), "evidence")
+		dir := filepath.Join(OutRoot(), "evidence")
 		_ = os.MkdirAll(dir, 0o755)
 		_ = os.WriteFile(filepath.Join(dir, r.Prop+".json"), append(b, '\n'), 0o644)
 	}
